@@ -2,6 +2,7 @@ use crate::h::core::Tier;
 use crate::h::driver::PropDef;
 use crate::h::scenario::Scenario;
 
+pub mod c08;
 pub mod c18;
 pub mod c19;
 pub mod c20;
@@ -53,7 +54,29 @@ fn c20_work(seed: u64, tier: Tier, idx: u64) -> Option<Scenario> {
     }
 }
 
+fn c08_work(seed: u64, tier: Tier, idx: u64) -> Option<Scenario> {
+    let random = if tier == Tier::Quick { 40_000 } else { 2_000_000 };
+    if idx < random {
+        Some(c08::generate(seed, idx))
+    } else {
+        None
+    }
+}
+
 static DEFS: &[PropDef] = &[PropDef {
+    id: "C08",
+    level: "exploration",
+    work: c08_work,
+    judge: c08::judge,
+    rule: "each scenario = one editing session over 1..3 documents (arbitrary Unicode text with 2-/3-/4-byte characters, CR, LF, CRLF; generated SPL with astral characters left of identifiers on the same line; broken SPL; empty) with 1..14 steps: didChange with 1..5 content changes chained on the client's replica (byte-range replacements converted to UTF-16 positions, structural edits, overshooting columns/lines, range-less full replacements), $/verif/text probes, prepareRename/hover at identifiers, close/reopen; delivered under a seeded segmentation, schedule and capacities; after every step the broker's document (H5 observer), every probe answer and every reported range are compared with the client's replica; ranges are fed back as positions in a second run; non-trivial = at least one fault/back-pressure/yield fired and a frame was emitted; distinct = distinct interleaving signature",
+    assumptions: &[
+        "client replica rules = LSP 3.17: UTF-16 code-unit columns; line ends \\n, \\r\\n, \\r; a column past the end of a line is the end of that line; a line past the last line is the end of the document (vscode-languageserver TextDocument); a range-less change replaces the whole text",
+        "positions inside a surrogate pair and reversed ranges are ill-formed and never generated",
+        "reported ranges are only judged on lines that are ASCII or where an astral character precedes the range (what counts as an identifier character beyond ASCII is C06's business)",
+        "sessions in which a task panics are attributed to C02 and not judged here",
+    ],
+    wall_cap: (150, 1500),
+}, PropDef {
     id: "C20",
     level: "exploration",
     work: c20_work,
